@@ -487,8 +487,59 @@ pub struct Plan {
     pub asset_need: BTreeMap<(u16, Vec<u8>), u64>,
 }
 
+/// Swarm variation: one run in four redraws the feature mix itself (each feature switched off, left
+/// alone or made dominant), so that correctness never silently depends on one property's profile.
+fn swarm_variant(seed: u64, p: &Profile) -> Profile {
+    let mut r = Rng::stream(seed, 5);
+    let mut q = p.clone();
+    if !r.chance(1, 4) {
+        return q;
+    }
+    for w in [
+        &mut q.byron,
+        &mut q.native_inputs,
+        &mut q.plutus,
+        &mut q.ref_scripts,
+        &mut q.assets,
+        &mut q.certs,
+        &mut q.script_certs,
+        &mut q.withdrawals,
+        &mut q.mint,
+        &mut q.burn,
+        &mut q.votes,
+        &mut q.proposals,
+        &mut q.metadata,
+        &mut q.req_signers,
+        &mut q.ref_inputs,
+        &mut q.extra_datums,
+        &mut q.misc_fields,
+        &mut q.fee_requests,
+        &mut q.collateral_helper,
+        &mut q.collateral_manual,
+        &mut q.tight,
+        &mut q.width_edges,
+        &mut q.out_features,
+        &mut q.many_assets,
+        &mut q.overlap_keys,
+        &mut q.removals,
+        &mut q.decoded_outputs,
+        &mut q.observers,
+        &mut q.alt_values,
+    ] {
+        match r.below(8) {
+            0..=2 => *w = 0,
+            3 => *w = 850,
+            4 => *w = 400,
+            _ => {}
+        }
+    }
+    q
+}
+
 /// One coherent wallet session.
 pub fn generate(seed: u64, tier: Tier, p: &Profile) -> Scenario {
+    let pv = swarm_variant(seed, p);
+    let p = &pv;
     let mut g = Gen::new(seed, p);
     let mut plan = Plan::default();
     let classes = g.asset_classes();
@@ -1087,7 +1138,7 @@ pub fn generate(seed: u64, tier: Tier, p: &Profile) -> Scenario {
     let hash_seed = Rng::stream(seed, 3).next();
     let adaptive = pm(&mut g.r, p.adaptive) && !off.is_empty();
     let alt_values = if pm(&mut g.r, p.alt_values) { 1 + g.r.below(250) as u8 } else { 0 };
-    let mut sc = Scenario { knobs: g.k.clone(), world: g.w, ops, rng, hash_seed, profile: format!("wallet/{}", p.name), alt_values };
+    let mut sc = Scenario { knobs: g.k.clone(), world: g.w, ops, rng, hash_seed, profile: format!("wallet/{}{}", p.name, if Rng::stream(seed, 5).chance(1, 4) { "/swarm" } else { "" }), alt_values };
     if adaptive && g.r.chance(1, 2) {
         // first measurement: choose coins_per_byte so that the minimum ADA of the last (change) output
         // sits just below the 2^16 coin-width edge; only ever lowered, so requested outputs stay valid
